@@ -891,9 +891,12 @@ Qed.
 Lemma utf8_char_ascii c x : x < 128 -> In x (utf8_char c) -> x = c.
 Proof.
   intros Hx. unfold utf8_char.
+  assert (big : forall a b, 128 <=? a = true -> a + b < 128 -> False).
+  { intros a b Ha Hab. apply N.leb_le in Ha. assert (a <= a + b) by apply N.le_add_r. lia. }
   destruct (N.ltb c 128); [intros [<-|[]]; reflexivity|].
-  destruct (N.ltb c 2048); [intros [<-|[<-|[]]]; lia|].
-  destruct (N.ltb c 65536); [intros [<-|[<-|[<-|[]]]]; lia|intros [<-|[<-|[<-|[<-|[]]]]]; lia].
+  destruct (N.ltb c 2048); [intros [<-|[<-|[]]]; exfalso; eapply big; try exact Hx; reflexivity|].
+  destruct (N.ltb c 65536);
+    [intros [<-|[<-|[<-|[]]]]|intros [<-|[<-|[<-|[<-|[]]]]]]; exfalso; eapply big; try exact Hx; reflexivity.
 Qed.
 
 Lemma encode_utf8_ascii x t : x < 128 -> In x (encode_utf8 t) -> In x t.
@@ -926,23 +929,188 @@ Proof.
   assert (Hep : ~ In 10 (encode_utf8 project)) by (intros H; apply Hp, (encode_utf8_ascii 10); [reflexivity|exact H]).
   assert (Hev : ~ In 10 (encode_utf8 version)) by (intros H; apply Hv, (encode_utf8_ascii 10); [reflexivity|exact H]).
   set (ep := encode_utf8 project) in *. set (ev := encode_utf8 version) in *.
-  (* line 1 *)
   cbn [app]. rewrite <- !app_assoc. cbn [app].
-  match goal with |- stripped (35 :: ?rest) z => idtac end.
-  apply (stripped_comment
-           [32; 83; 112; 104; 105; 110; 120; 32; 105; 110; 118; 101; 110; 116; 111; 114; 121; 32; 118; 101; 114; 115;
-            105; 111; 110; 32; 50]); [apply notin_by_compute; reflexivity|].
+  assert (step : forall l rest p d, d = (35 :: l) ++ 10 :: rest -> ~ In 10 l -> stripped rest p -> stripped d p)
+    by (intros l rest p d -> Hl Hs; apply stripped_comment; assumption).
+  (* line 1 *)
+  eapply (step [32; 83; 112; 104; 105; 110; 120; 32; 105; 110; 118; 101; 110; 116; 111; 114; 121; 32; 118; 101; 114; 115;
+                105; 111; 110; 32; 50]); [reflexivity|apply notin_by_compute; reflexivity|].
   (* line 2 *)
-  apply (stripped_comment ([32; 80; 114; 111; 106; 101; 99; 116; 58; 32] ++ ep)
-           ((35 :: [32; 86; 101; 114; 115; 105; 111; 110; 58; 32] ++ ev) ++ 10 :: _)).
+  eapply (step ([32; 80; 114; 111; 106; 101; 99; 116; 58; 32] ++ ep)); [cbn [app]; rewrite <- ?app_assoc; reflexivity| |].
   { intros H. apply in_app_or in H. destruct H as [H|H]; [revert H; apply notin_by_compute; reflexivity|exact (Hep H)]. }
   (* line 3 *)
-  apply (stripped_comment ([32; 86; 101; 114; 115; 105; 111; 110; 58; 32] ++ ev)).
+  eapply (step ([32; 86; 101; 114; 115; 105; 111; 110; 58; 32] ++ ev)); [cbn [app]; rewrite <- ?app_assoc; reflexivity| |].
   { intros H. apply in_app_or in H. destruct H as [H|H]; [revert H; apply notin_by_compute; reflexivity|exact (Hev H)]. }
   (* line 4 *)
-  apply (stripped_comment
-           [32; 84; 104; 101; 32; 114; 101; 115; 116; 32; 111; 102; 32; 116; 104; 105; 115; 32; 102; 105; 108; 101; 32;
-            105; 115; 32; 99; 111; 109; 112; 114; 101; 115; 115; 101; 100; 32; 119; 105; 116; 104; 32; 122; 108; 105; 98;
-            46]); [apply notin_by_compute; reflexivity|].
+  eapply (step [32; 84; 104; 101; 32; 114; 101; 115; 116; 32; 111; 102; 32; 116; 104; 105; 115; 32; 102; 105; 108; 101; 32;
+                105; 115; 32; 99; 111; 109; 112; 114; 101; 115; 115; 101; 100; 32; 119; 105; 116; 104; 32; 122; 108; 105; 98;
+                46]); [reflexivity|apply notin_by_compute; reflexivity|].
   apply stripped_not_comment, Hz.
+Qed.
+
+(* ================================================================== the whole inventory read back *)
+Definition objects_inv : text := [111; 98; 106; 101; 99; 116; 115; 46; 105; 110; 118].   (* "objects.inv" *)
+
+Definition link_of (base : text) (e : entry) : text * (text * text) := (e_name e, (base, e_url e)).
+
+Section RoundTrip.
+  Variable compress : list N -> list N.
+  Variable decompress : list N -> option (list N).
+  Variable decode_utf8 : list N -> option text.
+
+  (* the bytes handed to zlib.compress, and the text they encode *)
+  Definition content_text (roots : list text) (subjects : list obj) : text := concat (gen_lines roots subjects).
+  Definition content_bytes (roots : list text) (subjects : list obj) : list N :=
+    concat (map encode_utf8 (gen_lines roots subjects)).
+
+  (* what is assumed of zlib and of the utf-8 codec, on this content only:
+     decompress inverts compress, a zlib stream does not begin with '#', decoding inverts encoding *)
+  Definition codec_contract (roots : list text) (subjects : list obj) : Prop :=
+    decompress (compress (content_bytes roots subjects)) = Some (content_bytes roots subjects) /\
+    starts_with_char 35 (compress (content_bytes roots subjects)) = false /\
+    decode_utf8 (content_bytes roots subjects) = Some (content_text roots subjects).
+
+  Lemma fold_line_step_entries base (es : list entry) : forall d,
+    (forall e, In e es -> int_guard py_int (e_name e) /\ Forall url_char (e_url e)) ->
+    fold_left (line_step (parse_line py_int) base) (map body_of es) d
+    = fold_left (fun acc kv => dict_set (fst kv) (snd kv) acc) (map (link_of base) es) d.
+  Proof.
+    induction es as [|e es IH]; intros d H; [reflexivity|]. cbn [map fold_left].
+    destruct (H e (or_introl eq_refl)) as (Hg & Hu).
+    unfold line_step at 2. rewrite (body_parses e Hg Hu). unfold is_py. cbn [c_typ c_name c_loc].
+    destruct (py_type_facts (e_tag e)) as (_ & _ & ->).
+    apply IH. intros e' He'. apply H. right. exact He'.
+  Qed.
+
+  Lemma line_reports_entries base (es : list entry) :
+    (forall e, In e es -> int_guard py_int (e_name e) /\ Forall url_char (e_url e)) ->
+    flat_map (line_reports (parse_line py_int) base) (map body_of es) = [].
+  Proof.
+    induction es as [|e es IH]; intros H; [reflexivity|]. cbn [map flat_map].
+    destruct (H e (or_introl eq_refl)) as (Hg & Hu).
+    unfold line_reports at 1. rewrite (body_parses e Hg Hu). cbn [app].
+    apply IH. intros e' He'. apply H. right. exact He'.
+  Qed.
+
+  (* C17_inventory_roundtrip *)
+  Lemma inventory_roundtrip project version roots subjects base :
+    codec_contract roots subjects ->
+    ~ In 10 project -> ~ In 10 version ->
+    (forall e, In e (entries roots subjects) -> name_ok (e_name e)) ->
+    NoDup (map e_name (entries roots subjects)) ->
+    update (parse_line py_int) decompress decode_utf8 [] (base ++ 47 :: objects_inv)
+           (Some (generate compress project version roots subjects))
+    = Ok (map (link_of base) (entries roots subjects), []).
+  Proof.
+    intros (zlib_inverse & zlib_magic & utf8_inverse) Hp Hv Hok Hnd. set (es := entries roots subjects) in *.
+    unfold content_bytes, content_text in *.
+    unfold update. rewrite rsplit1_last by (apply notin_by_compute; reflexivity).
+    unfold generate.
+    set (z := compress (concat (map encode_utf8 (gen_lines roots subjects)))).
+    assert (Hs : stripped (encode_utf8 (header project version) ++ z) z)
+      by (apply header_stripped; [exact Hp|exact Hv|apply zlib_magic]).
+    destruct (encode_utf8 (header project version) ++ z) as [|b0 d0] eqn:Ed.
+    { exfalso. unfold header in Ed. rewrite !encode_utf8_app in Ed. cbn in Ed. discriminate. }
+    unfold get_payload. rewrite (stripped_strip_comments _ _ Hs) by (unfold strip_fuel; lia).
+    unfold z. rewrite zlib_inverse, utf8_inverse.
+    rewrite parse_inventory_eq by apply parse_line_total.
+    rewrite gen_lines_entries. fold es.
+    assert (Hwf : forall e, In e es -> int_guard py_int (e_name e) /\ Forall url_char (e_url e)).
+    { intros e He. split; [apply (Hok e He)|apply (entries_wf roots subjects e He)]. }
+    assert (Hlines : splitlines (concat (map (fun e => body_of e ++ [10]) es)) = map body_of es).
+    { rewrite <- (map_map body_of (fun b => b ++ [10])). apply splitlines_lines.
+      apply Forall_forall. intros b Hb. apply in_map_iff in Hb. destruct Hb as (e & <- & He).
+      apply body_no_break; [apply (Hok e He)|apply (Hwf e He)]. }
+    rewrite Hlines, (line_reports_entries base es Hwf), (fold_line_step_entries base es [] Hwf).
+    assert (Hnd' : NoDup (map fst (map (link_of base) es))) by (rewrite map_map; exact Hnd).
+    rewrite fold_set_fresh by (exact Hnd' || (intros k _ [])). cbn [app].
+    unfold dict_update. rewrite fold_set_fresh by (exact Hnd' || (intros k _ [])). reflexivity.
+  Qed.
+
+  (* and every entry resolves through getLink to base/url *)
+  Lemma roundtrip_get_link roots subjects base e :
+    NoDup (map e_name (entries roots subjects)) -> In e (entries roots subjects) ->
+    get_link (map (link_of base) (entries roots subjects)) (e_name e) = Some (base ++ [47] ++ e_url e).
+  Proof.
+    intros Hnd He. destruct (entries_wf roots subjects e He) as (Hu & Hne).
+    apply get_link_plain; [|exact Hne|apply url_chars_no_dollar, Hu].
+    apply lookup_in_nodup; [rewrite map_map; exact Hnd|].
+    change (e_name e, (base, e_url e)) with (link_of base e). apply in_map, He.
+  Qed.
+End RoundTrip.
+
+Lemma line_roundtrip_py name kind url :
+  int_guard py_int name -> ~ In SP kind -> ~ In SP url ->
+  parse_line py_int (line_body name (py_prefix ++ kind) url) = Ok (Cols name (py_prefix ++ kind) (-1) url dash).
+Proof.
+  intros Hg Hk Hu. apply line_roundtrip; [reflexivity| |exact Hu|apply py_int_py_type|exact Hg].
+  intros H. apply in_app_or in H. destruct H as [H|H]; [revert H; apply notin_by_compute; reflexivity|exact (Hk H)].
+Qed.
+
+(* ================================================================== written lines are in Sphinx's grammar *)
+Lemma written_line_v2 name typ url :
+  name <> [] -> typ <> [] -> non_space typ -> non_space url ->
+  v2_line (line_body name typ url) (Cols name typ (-1) url dash).
+Proof.
+  intros Hn Ht Hts Hus. exists sp, sp, minus_one, sp, sp. cbn [c_name c_typ c_prio c_loc c_disp].
+  assert (Hsp : ws_run sp) by (split; [discriminate|constructor; [reflexivity|constructor]]).
+  split; [reflexivity|].
+  split; [exact Hn|]. split; [exact Hsp|]. split; [exact Ht|]. split; [exact Hts|]. split; [exact Hsp|].
+  split; [|split; [exact Hsp|split; [exact Hus|exact Hsp]]].
+  exists true, [49]. split; [discriminate|]. split; [constructor; [reflexivity|constructor]|]. split; reflexivity.
+Qed.
+
+(* ================================================================== the statements of Props/C17.v *)
+Lemma parse_line_meaning (int_of : text -> option Z) (line : text) (c : columns) :
+  parse_line int_of line = Ok c <-> pd_line int_of line c.
+Proof. split; [apply parse_line_sound|apply parse_line_complete]. Qed.
+
+Lemma update_total_any (int_of : text -> option Z) (decompress : list N -> option (list N))
+      (decode_utf8 : list N -> option text) (links : dict) (url : text) (data : option (list N)) :
+  exists links' reps, update (parse_line int_of) decompress decode_utf8 links url data = Ok (links', reps).
+Proof. exact (update_total _ (parse_line_total int_of) decompress decode_utf8 links url data). Qed.
+
+Lemma bad_parts_skipped_payload (int_of : text -> option Z) (base payload : text) :
+  let pl := parse_line int_of in
+  let lines := splitlines payload in
+  exists links,
+    parse_inventory pl base payload = Ok (links, flat_map (line_reports pl base) lines) /\
+    (forall pre l post c,
+        lines = pre ++ l :: post -> pl l = Ok c -> is_py c = true ->
+        (forall l' c', In l' post -> pl l' = Ok c' -> is_py c' = true -> c_name c' <> c_name c) ->
+        lookup (c_name c) links = Some (base, c_loc c)) /\
+    (forall n v, lookup n links = Some v ->
+                 exists l c, In l lines /\ pl l = Ok c /\ is_py c = true /\ c_name c = n /\ v = (base, c_loc c)).
+Proof. exact (bad_parts_skipped _ (parse_line_total int_of) base (splitlines payload)). Qed.
+
+Lemma payload_stages (int_of : text -> option Z) (decompress : list N -> option (list N))
+      (decode_utf8 : list N -> option text) (links : dict) :
+  let upd := update (parse_line int_of) decompress decode_utf8 links in
+  (forall url data, ~ In 47 url -> upd url data = Ok (links, [RNoBase url])) /\
+  (forall url data, In 47 url -> data = None \/ data = Some [] -> upd url data = Ok (links, [RNoData url])) /\
+  (forall base rest d p, ~ In 47 rest -> d <> [] -> stripped d p -> decompress p = None ->
+                         upd (base ++ 47 :: rest) (Some d) = Ok (links, [RUncompress base])) /\
+  (forall base rest d p raw, ~ In 47 rest -> d <> [] -> stripped d p -> decompress p = Some raw ->
+                             decode_utf8 raw = None ->
+                             upd (base ++ 47 :: rest) (Some d) = Ok (links, [RDecode base])).
+Proof.
+  cbv zeta.
+  split; [intros url data; apply stage_no_base|].
+  split; [intros url data; apply stage_no_data|].
+  split; [intros base rest d p; apply stage_uncompress; apply parse_line_total|].
+  intros base rest d p raw; apply stage_decode; apply parse_line_total.
+Qed.
+
+Lemma comment_stripping data : exists p, strip_comments (strip_fuel data) data = Ok p /\ stripped data p.
+Proof. apply strip_comments_stripped. unfold strip_fuel. apply Nat.lt_succ_diag_r. Qed.
+
+Lemma getlink_all (links : dict) (name base : text) :
+  (forall loc, lookup name links = Some (base, loc ++ [36]) ->
+               get_link links name = Some (base ++ [47] ++ loc ++ name)) /\
+  (forall rel, lookup name links = Some (base, rel) -> rel <> [] -> ends_with_char 36 rel = false ->
+               get_link links name = Some (base ++ [47] ++ rel)) /\
+  (lookup name links = None \/ lookup name links = Some (base, []) -> get_link links name = None).
+Proof.
+  split; [intros loc; apply get_link_dollar|]. split; [intros rel; apply get_link_plain|].
+  intros [H|H]; apply get_link_none; [left; exact H|right; exists base; exact H].
 Qed.
